@@ -14,7 +14,7 @@ def run(tier, seed):
     th = tier == "thorough"
     merged = {}
     for k, p in enumerate(ORACLES):
-        recs, matrix = sweep(run, p, seed * 31 + 7 + k, 2, 250 if th else 45, 6 if th else 5)
+        recs, matrix = sweep(run, p, seed * 31 + 7 + k, 2, 300 if th else 60, 6 if th else 5)
         for a, c in matrix.items():
             merged[a] = merged.get(a, 0) + c
         if k == 0:
